@@ -323,6 +323,21 @@ var calls = []call{
 		_ = c.SetBit(0, true)
 		return append(w.mask.Mask(), c.Mask()...)
 	}, false},
+	{"bdn.AggregatePublicKeys(mask)", func(w *world) bool { return w.mask != nil }, func(w *world) []byte {
+		// first use of the mask's per-key terms happens here, concurrently (seed C20h computed them lazily)
+		p, err := bdn.NewSchemeOnG1(w.ps).AggregatePublicKeys(w.mask)
+		if err != nil {
+			return errB(err)
+		}
+		return enc(p)
+	}, false},
+	{"bdn.AggregatePublicKeys(clone)", func(w *world) bool { return w.mask != nil }, func(w *world) []byte {
+		p, err := bdn.NewSchemeOnG1(w.ps).AggregatePublicKeys(w.mask.Clone())
+		if err != nil {
+			return errB(err)
+		}
+		return enc(p)
+	}, false},
 	{"bdn.Mask.Participants", func(w *world) bool { return w.mask != nil }, func(w *world) []byte {
 		var out []byte
 		for _, p := range w.mask.Participants() {
